@@ -6,6 +6,10 @@ V = os.path.dirname(os.path.abspath(__file__))
 
 # id -> (category, technique, text, note, design_ref)
 CHECKS = {
+ "C13": ("exploration",
+  "reference-model monitor: literal statement over an independent Redis key-spec table, exhaustive to a key-count bound",
+  "Every command of the tool table x every valid arity up to 4 (quick) / 6 (thorough) keys x all 2^n pass/fail patterns x whitelist/blacklist is rewritten by the real filter and compared argv-for-argv with the literal statement evaluated over an independently typed key-spec table; plus checkpoint keys, commands outside the table, no-filter identity. Exhaustive to the bound.",
+  "Trusted: the reference key-spec table (Redis first/last/step) and that pass/fail is controlled by key prefix only.", "DESIGN.md §5/C13"),
  "C15": ("exploration",
   "reference-model monitor: spec-derived slot function and bitwise CRC16 run against every enumerated/random key; result re-hashing for chosen checkpoint keys",
   "Every string over {'{','}',a,b} up to length 8 (quick) / 10 (thorough) plus 60k/600k random binary keys go through KeyToSlot and are compared with a slot function typed from the Cluster specification; all three CRC16 copies are compared with a bitwise CRC16/XMODEM; every ChoseSlotInRange / findKeyInRange result is re-hashed by the reference and must land in range and be excluded by FilterKey (thorough: all 16384 singleton ranges). Exhaustive to the stated bound, sampled beyond it.",
